@@ -276,6 +276,7 @@ func checkKV(db, parent corestore.KVStoreWithBatch, prefix []byte, m map[string]
 					}
 				}
 				var got []string
+				var keptK, keptV [][]byte // the returned slices themselves: they must stay intact after Next / Close
 				for ; it.Valid(); it.Next() {
 					k, v := it.Key(), it.Value()
 					if string(v) != m[string(k)] {
@@ -283,6 +284,7 @@ func checkKV(db, parent corestore.KVStoreWithBatch, prefix []byte, m map[string]
 						return fmt.Sprintf("%s: value of %x = %q, model %q", what, k, v, m[string(k)])
 					}
 					got = append(got, string(k))
+					keptK, keptV = append(keptK, k), append(keptV, v)
 					if len(got) > len(want)+4 {
 						break
 					}
@@ -300,6 +302,11 @@ func checkKV(db, parent corestore.KVStoreWithBatch, prefix []byte, m map[string]
 				}
 				if strings.Join(got, "|") != strings.Join(want, "|") {
 					return fmt.Sprintf("%s yields %x, model %x", what, got, want)
+				}
+				for i := range keptK {
+					if string(keptK[i]) != got[i] || string(keptV[i]) != m[got[i]] {
+						return fmt.Sprintf("%s: the slices returned for entry %d (%x) were overwritten by later iterator calls: now %x=%q, the store holds %q", what, i, got[i], keptK[i], keptV[i], m[got[i]])
+					}
 				}
 			}
 		}
